@@ -763,6 +763,23 @@ fn corpus(rep: &mut Report, model: &mut Model) {
         let e = exp(&[(if entry == "priv" { "priv_der" } else { "pub_der" }, R::Ok(k.clone())), (entry, R::Ok(k.clone()))]);
         check_input(rep, model, &format!("pem-frame-in-key:{entry}-der (an exported DER file whose key bytes are `-----BEGIN X----------END X-----`: PEM is tried first and finds a frame inside the key)"), &d, &e, true);
     }
+    // keys whose 32 bytes are TEXT (the fixed DER prefixes are ASCII, so the whole file is then valid UTF-8 /
+    // ASCII): letters, digits, blanks, keys that begin or end with white space of every kind — a format
+    // detection that looks at the bytes as text must still take the DER file as it is
+    let mut texts: Vec<Vec<u8>> = vec![b"mla-backup-key-seed-2024-06-01\r\n".to_vec(), b"correct horse battery staple 32 ".to_vec(), vec![b' '; 32], vec![b'A'; 32],
+        b"0123456789abcdef0123456789abcde\t".to_vec(), b"\n123456789abcdef0123456789abcdef".to_vec(), b"key material ending with a ff \x0c\x0b".to_vec(), vec![0u8; 32], (0u8..32).collect(), vec![0x7f; 32]];
+    texts.push("é".repeat(15).into_bytes().into_iter().chain([0xc2, 0xa0]).collect());           // ends with U+00A0
+    texts.push(b"abcdefghijklmnopqrstuvwxyz0123".iter().copied().chain([0xc2, 0x85]).collect());  // ends with U+0085
+    texts.push([0xe2, 0x80, 0x83].iter().copied().chain(b"leading em space in the key 2".iter().copied()).collect()); // begins with U+2003
+    for k in texts {
+        if k.len() != 32 { continue; }
+        for (prefix, entry) in [(&PRIV_PREFIX[..], "priv"), (&PUB_PREFIX[..], "pub")] {
+            let mut d = prefix.to_vec();
+            d.extend_from_slice(&k);
+            let e = exp(&[(if entry == "priv" { "priv_der" } else { "pub_der" }, R::Ok(k.clone())), (entry, R::Ok(k.clone()))]);
+            check_input(rep, model, &format!("text-key:{entry}-der"), &d, &e, true);
+        }
+    }
     // special Edwards y encodings: identity, 0, −1, non-canonical (≥ p) values, with and without sign bit
     let p255: [u8; 32] = { let mut b = [0xffu8; 32]; b[0] = 0xed; b[31] = 0x7f; b };
     let mut specials: Vec<[u8; 32]> = vec![];
